@@ -166,6 +166,20 @@ def prop_arrays(case):
         out = np.full(bshape[::-1], case['outfill'], dtype=np.uint8).T
     elif case['out'] == 'S':
         out = np.full(tuple(2 * d for d in bshape), case['outfill'], dtype=np.uint8)[tuple(slice(None, None, 2) for _ in bshape)]
+    refused_first = (len(case['a']) + case['outfill']) % 3 == 0
+    if refused_first:
+        # history: an earlier call in the same process, on operands of the same shapes holding only unknown / unassigned values, that is refused
+        # (a read-only destination, or one of a shape nothing broadcasts to); whatever it raised, the next call is a call like any other
+        u1 = np.full(x1.shape, 1, dtype=np.uint8); u1.reshape(-1)[::2] = 2
+        u2 = np.full(x2.shape, 2, dtype=np.uint8); u2.reshape(-1)[::2] = 1
+        if case['outfill'] % 2:
+            bad_out = np.zeros(bshape, dtype=np.uint8); bad_out.flags.writeable = False
+        else:
+            bad_out = np.zeros((7,) + tuple(d + 3 for d in bshape), dtype=np.uint8)
+        try:
+            f(*([u1] if op == 'not' else [u1, u2]), out=bad_out)
+        except Exception:          # refused; how is not the subject
+            pass
     if out is not None and case['outfill'] % 2 and op != 'not':
         r = f(*args, out)                      # the documented signature is (x1, x2, out=None): the destination may be given by position
     elif out is not None and case['outfill'] % 2:
@@ -211,6 +225,7 @@ def prop_arrays(case):
     labels = [op, 'out_' + case['out'], f'ndim{len(bshape)}']
     if x1.shape != x2.shape and op != 'not': labels.append('broadcast')
     if x2 is x1 and op != 'not': labels.append('same_object_twice')
+    if refused_first: labels.append('after_a_refused_call')
     if x1.ndim == 0: labels.append('first_operand_0d')
     if x2.ndim == 0 and op != 'not': labels.append('second_operand_0d')
     nontrivial = any(v not in (0, 3) for v in case['a'])
